@@ -159,7 +159,7 @@ pub fn property() -> Property {
             fuzz_decode: Some(crate::fuzzdec::c16_case),
             strategy,
             check,
-            required_classes: &["prefix-leaves-open-context", "prefix-ends-with-empty-free-list", "prefix-ends-with-error", "free-list-full-at-recovery"],
+            required_classes: &["prefix-leaves-open-context", "prefix-ends-with-empty-free-list", "prefix-ends-with-error"],
         })],
     }
 }
